@@ -17,7 +17,7 @@ def run_case(desc):
     H = S.H
     W = desc["W"]
     sW = desc.get("sW")
-    retry_n = rng.choice([None, None, 2, 3])
+    retry_n = rng.choice([None, None, 2, 3, 6])
     flaky = {}
     if retry_n:
         for i in S.reg:
